@@ -2,7 +2,8 @@
    input : <entry> <mode> <fixes> <checked> <hex> <shapes> [<kind>:<hex>:<0|1> ...]
      entry   U unmarshal | S service request | C client response
      mode    U: s (simple) | r (reference)     S: a (no missing method) | b (add + missing method)    C: -
-     fixes   five bits: count neg loop next str   (behavioural repairs present in the tree under test)
+     fixes   comma separated behavioural repairs present in the tree under test ("-" none, "*" all):
+             count-<site> (names uint8 args slice map listmap objmap array) loop next str strmap refnil
      checked comma separated hazard sites whose check the tree has ("-" none, "*" all)
      hex     the input ("-" = empty)
      shapes  U: one destination shape; C: return shapes separated by '+' ("-" none); S: "-"
@@ -109,7 +110,7 @@ let methods_b = [ { mname = bs "add"; mparams = [int_; int_]; mvariadic = false 
 (* ---- names *)
 let string_of_msite = function
   | MNames -> "names" | MUint8 -> "uint8" | MArgs -> "args" | MSlice -> "slice" | MMap -> "map"
-  | MNext -> "next" | MStr -> "str" | MObjMap -> "objmap"
+  | MListMap -> "listmap" | MObjMap -> "objmap" | MArray -> "array" | MNext -> "next" | MStr -> "str"
 
 let string_of_site = function
   | HRefIndex -> "ref-index" | HClassIndex -> "class-index"
@@ -143,8 +144,10 @@ let stats (inlen : int) (s : st) (hz : site list) : string =
 let run line =
   match split_ws line with
   | entry :: mode :: fixbits :: checked :: hex :: shapes :: table ->
-    let bit i = String.length fixbits > i && fixbits.[i] = '1' in
-    let fx = { fx_count = bit 0; fx_neg = bit 1; fx_loop = bit 2; fx_next = bit 3; fx_str = bit 4 } in
+    let fl = if fixbits = "-" then [] else String.split_on_char ',' fixbits in
+    let has x = Stdlib.List.mem x fl in
+    let fx = { fx_count = (fun m -> has "*" || has ("count-" ^ string_of_msite m)); fx_loop = has "*" || has "loop";
+               fx_next = has "*" || has "next"; fx_str = has "*" || has "str"; fx_strmap = has "*" || has "strmap"; fx_refnil = has "*" || has "refnil" } in
     let chk = if checked = "*" then (fun _ -> true)
       else if checked = "-" then (fun _ -> false)
       else let l = String.split_on_char ',' checked in (fun h -> Stdlib.List.mem (string_of_site h) l) in
